@@ -13,6 +13,7 @@ H3 the only shared write is the symbol cache: a single subscript store of a valu
    is computed by a function that reads no state that can change
 H4 every other shared object touched by the regions is never written after import, anywhere
 H5 no `global` rebinding in the regions
+H6 no call of a setter of interpreter-wide state (sys.setrecursionlimit, os.environ, warning filters, random.seed, ...)
 """
 import ast
 
@@ -35,7 +36,7 @@ META = {
                      "external effect table for builtins", "no concurrent call of set_semantic_constraints "
                      "(property: 'with the constraint table fixed')"],
     "assumptions": ["flow-insensitive, allocation-site abstraction: sound over-approximation of aliasing"],
-    "level_text": "Static ownership/effect proof obligations H1-H5 over all mutation sites reachable from the two "
+    "level_text": "Static ownership/effect proof obligations H1-H6 (H6: no setter of interpreter-wide state) over all mutation sites reachable from the two "
                   "translators: quantifies over all schedules because it shows absence of shared mutable state "
                   "rather than sampling interleavings.",
     "level_note": "Trusted: CPython GIL atomicity of single dict operations, C lru_cache locking, builtin effect table. "
@@ -95,10 +96,61 @@ def check_cache_store(ctx, eff, rep, f, r, table_vars, rule="H3"):
             g2 = ctx.db.funcs[q2]
             if g2.is_lru and any(v in table_vars for v in eff.module_var_reads(g2)):
                 problems.append("cached value is computed via memo %s of the constraint table" % g2.qual)
+    # the key determines the value: following the value's def-use chains inside f, every chain ends in the key (or in
+    # constants / module-level names) -- never in a parameter or input-derived local that the key does not cover
+    why = _value_not_from_key(f, r.node)
+    if why:
+        problems.append(why)
     rep.ob(rule, not problems, r.node, f, construct=r.detail,
            how="single atomic dict store of a shape-immutable value computed from the key alone (racing writers are idempotent)",
            witness="; ".join(sorted(set(problems))) or None, nontrivial=True)
     return not problems
+
+
+def _value_not_from_key(f, node):
+    """for a store ``CACHE[key] = value`` in f: None when every def-use chain of `value` inside f ends in the names of
+    `key`; otherwise a description of an input the value reads that the key does not determine"""
+    from sa.db import own_nodes
+    st = node if isinstance(node, ast.Assign) else None
+    if st is None:
+        for x in own_nodes(f.node):
+            if isinstance(x, ast.Assign) and any(t is node or any(y is node for y in ast.walk(t)) for t in x.targets):
+                st = x
+    if st is None or not st.targets or not isinstance(st.targets[0], ast.Subscript):
+        return None
+    key_expr, val_expr = st.targets[0].slice, st.value
+    loc = set(f.locals) | set(f.params)
+
+    def names(e):
+        return {n.id for n in ast.walk(e) if isinstance(n, ast.Name) and isinstance(n.ctx, ast.Load) and n.id in loc}
+    knames = names(key_expr)
+    if not knames:
+        return None                    # constant key: nothing to cover
+    defs = {}
+    for x in own_nodes(f.node):
+        if isinstance(x, ast.Assign):
+            for t in x.targets:
+                for n in ast.walk(t):
+                    if isinstance(n, ast.Name) and isinstance(n.ctx, ast.Store):
+                        defs.setdefault(n.id, set()).update(names(x.value))
+        elif isinstance(x, ast.AugAssign) and isinstance(x.target, ast.Name):
+            defs.setdefault(x.target.id, set()).update(names(x.value) | {x.target.id})
+        elif isinstance(x, (ast.For, ast.comprehension)):
+            for n in ast.walk(x.target):
+                if isinstance(n, ast.Name):
+                    defs.setdefault(n.id, set()).update(names(x.iter))
+    seen, work = set(), list(names(val_expr))
+    while work:
+        nm = work.pop()
+        if nm in seen or nm in knames:
+            continue
+        seen.add(nm)
+        if nm in f.params:
+            return "the cached value reads the parameter %r, which the key (%s) does not determine: two inputs with one key share an entry" \
+                % (nm, unparse(key_expr))
+        work.extend(defs.get(nm, ()))
+    # a key that is itself derived from a parameter while the value is the (rebound) parameter
+    return None
 
 
 def find_cache_stores(ctx, eff, rep, region, table_vars, rule):
@@ -260,6 +312,10 @@ def run(ctx, rep):
     n_sites = scan_mutations(ctx, eff, rep, region, whitelisted, "H1")
     rep.floor("H1", 40, "mutation sites in the translation regions")
     scan_global_rebinds(ctx, eff, rep, region, "H5")
+    # H6: interpreter-wide state (recursion limit, trace hooks, environment ...) is not package state, so the points-to
+    # rules above do not see it: an explicit who-may-call rule
+    from rules.shared import check_no_process_global_writes
+    check_no_process_global_writes(ctx, rep, region, "H6")
     n_touched = scan_shared_readonly(ctx, eff, rep, region, whitelisted, "H4")
     rep.floor("H4", 8, "shared tables read by the translators")
     rep.analysed.update({"mutation_sites": n_sites, "shared_objects_touched": n_touched,
